@@ -320,12 +320,23 @@ struct Exec {
       case RESULT_ASSIGN: {
         // result values are assigned over live result values (same arm and other arm), moved, and dropped
         bool a = o.n & 1, b = o.n & 2, c = o.n & 4;
-        auto r1 = Tok::try_new(a);
-        auto r2 = Tok::try_new(b);
-        r1 = std::move(r2);
-        if (r1.is_ok() != b) fail("O5-value-integrity", "assigned result holds the wrong arm");
-        r1 = Tok::try_new(c);
-        if (r1.is_ok() != c) fail("O5-value-integrity", "assigned result holds the wrong arm");
+        auto churn = [&](auto make) {
+          auto r1 = make(a);
+          auto r2 = make(b);
+          r1 = std::move(r2);
+          if (r1.is_ok() != b) fail("O5-value-integrity", "assigned result holds the wrong arm");
+          r1 = make(c);
+          if (r1.is_ok() != c) fail("O5-value-integrity", "assigned result holds the wrong arm");
+        };
+        // the shape of the result follows the handle the operation names: both arms own an object; only the Err arm
+        // does and the Ok type is trivially destructible (needs a Tok to call on); only the Ok arm does
+        int shape = (o.h + o.n / 8 + (int)o.f) % 3;
+        Tok* on = nullptr;
+        for (auto& y : hs) if (y.kind == 1 && !on) on = y.tok.get();
+        if (shape == 1 && !on) shape = 0;
+        if (shape == 1) { churn([&](bool ok) { uint32_t cid = 0; return on->try_call(ok, make_fn(cid)); }); inc("result_assigned_over_live_result_trivial_ok_owning_err"); }
+        else if (shape == 2) { churn([&](bool ok) { return Tok::try_new_pod_err(ok); }); inc("result_assigned_over_live_result_owning_ok_trivial_err"); }
+        else churn([&](bool ok) { return Tok::try_new(ok); });
         inc("result_assigned_over_live_result");
         break;
       }
